@@ -51,3 +51,103 @@ def ref_chain(name: str):
 
 def has_bcj(name: str) -> bool:
     return any(p in ("X86", "ARM", "ARMT", "PPC", "SPARC", "IA64") for p in name.split("+"))
+
+
+def codec_library_defect(name: str, data: bytes, block: int | None = None, **over):
+    """The delegated codec libraries are not py7zr.  For chains built from stand-alone codec objects (everything
+    except the single native liblzma chain) this replays, WITHOUT any py7zr code, the call pattern py7zr uses on the
+    raw libraries - source read block by block, each block through every encoder object in turn, then the flush
+    cascade - and decodes the result stage by stage with the same libraries.  Returns a description when that pure
+    library pipeline does not reproduce the input (then no container code could succeed); None otherwise."""
+    import bz2
+    import zlib
+
+    parts = [p for p in name.split("+") if p != "AES"]
+    filters = [f for p, f in zip(name.split("+"), py_filters(name, **over)) if p != "AES"]
+    if not parts or all(p in ("LZMA", "LZMA2", "DELTA", "X86", "ARM", "ARMT", "PPC", "SPARC", "IA64") for p in parts) and "LZMA2" in parts:
+        return None  # one native liblzma raw chain
+    if any(p in ("LZMA", "LZMA2", "DELTA", "IA64") for p in parts):
+        return None
+    block = block or 1048576
+    import bcj as _bcj
+
+    bcjmap = {"X86": ("BCJEncoder", "BCJDecoder"), "ARM": ("ARMEncoder", "ARMDecoder"), "ARMT": ("ARMTEncoder", "ARMTDecoder"),
+              "PPC": ("PPCEncoder", "PPCDecoder"), "SPARC": ("SparcEncoder", "SparcDecoder")}
+    encs = []
+    for p, f in zip(parts, filters):
+        if p in bcjmap:
+            o = getattr(_bcj, bcjmap[p][0])()
+            encs.append((p, o.encode, o.flush, f))
+        elif p == "PPMD":
+            import pyppmd
+
+            mem = f.get("mem", 24)
+            mem = ((1 << int(mem)) if mem.isdecimal() else int(mem[:-1]) << {"m": 20, "k": 10, "b": 0}[mem[-1].lower()]) if isinstance(mem, str) else 1 << mem
+            f = dict(f, _mem=mem)
+            o = pyppmd.Ppmd7Encoder(f.get("order", 6), mem)
+            encs.append((p, o.encode, o.flush, f))
+        elif p == "BZIP2":
+            o = bz2.BZ2Compressor()
+            encs.append((p, o.compress, o.flush, f))
+        elif p == "DEFLATE":
+            o = zlib.compressobj(wbits=-15)
+            encs.append((p, o.compress, o.flush, f))
+        elif p == "ZSTD":
+            import pyzstd
+
+            o = pyzstd.ZstdCompressor(f.get("level", 3))
+            encs.append((p, o.compress, o.flush, f))
+        elif p == "COPY":
+            encs.append((p, bytes, lambda: b"", f))
+        else:
+            return None  # Brotli / Deflate64: not replayed
+    sizes = [0] * len(encs)
+    out = bytearray()
+    try:
+        for i in range(0, len(data), block):
+            d = data[i : i + block]
+            for k, (p, enc, fl, f) in enumerate(encs):
+                sizes[k] += len(d)
+                d = enc(d)
+            out += d
+        d = None
+        for k, (p, enc, fl, f) in enumerate(encs):
+            if d:
+                sizes[k] += len(d)
+                d = enc(d) + fl()
+            else:
+                d = fl()
+        out += d or b""
+        stage = bytes(out)
+        for k in range(len(encs) - 1, -1, -1):
+            p, _, _, f = encs[k]
+            n = sizes[k]
+            if p in bcjmap:
+                dec = getattr(_bcj, bcjmap[p][1])(n)
+                stage = dec.decode(stage) + dec.decode(b"")
+            elif p == "PPMD":
+                import pyppmd
+
+                dd = pyppmd.Ppmd7Decoder(f.get("order", 6), f["_mem"])
+                res = bytearray(dd.decode(stage, n)) if n else bytearray()
+                g = 0
+                while len(res) < n and g < 64:
+                    res += dd.decode(b"\0" if dd.needs_input else b"", n - len(res))
+                    g += 1
+                stage = bytes(res)
+            elif p == "BZIP2":
+                stage = bz2.BZ2Decompressor().decompress(stage)
+            elif p == "DEFLATE":
+                o = zlib.decompressobj(wbits=-15)
+                stage = o.decompress(stage) + o.flush()
+            elif p == "ZSTD":
+                import pyzstd
+
+                stage = pyzstd.ZstdDecompressor().decompress(stage)
+            if len(stage) != n:
+                return f"{p} library returns {len(stage)} of {n} bytes for its own output (chain {name}, pure library pipeline)"
+    except Exception as ex:
+        return f"pure library pipeline for {name} raises {type(ex).__name__}: {ex}"
+    if stage != data:
+        return f"pure library pipeline for {name} (no py7zr code involved) does not reproduce the input"
+    return None
